@@ -4,12 +4,15 @@
 package mon
 
 import (
+	"crypto/sha256"
 	"crypto/x509"
+	"encoding/binary"
 	"errors"
 	"fmt"
 	"hash/fnv"
 	"runtime/debug"
 	"strings"
+	"sync"
 	"time"
 
 	"verifharness/ref"
@@ -59,6 +62,32 @@ func trimStack(s string) string {
 }
 
 // Options builds verify.Options for a case together with its recording getter.
+// poolFor returns ONE *x509.CertPool per distinct list of roots, as a caller that builds its pool once and keeps it would
+// pass: state that the library keys by the pool pointer is then shared between the calls that name the same roots.
+var pools sync.Map
+
+func poolFor(roots [][]byte) *x509.CertPool {
+	h := sha256.New()
+	for _, der := range roots {
+		var n [8]byte
+		binary.LittleEndian.PutUint64(n[:], uint64(len(der)))
+		h.Write(n[:])
+		h.Write(der)
+	}
+	key := string(h.Sum(nil))
+	if p, ok := pools.Load(key); ok {
+		return p.(*x509.CertPool)
+	}
+	p := x509.NewCertPool()
+	for _, der := range roots {
+		if x, err := x509.ParseCertificate(der); err == nil {
+			p.AddCert(x)
+		}
+	}
+	act, _ := pools.LoadOrStore(key, p)
+	return act.(*x509.CertPool)
+}
+
 var verifyZones = []*time.Location{time.UTC, time.FixedZone("", 14*3600), time.FixedZone("", -12*3600), time.FixedZone("", 5*3600+45*60)}
 
 func Options(c *world.Case) (*verify.Options, *world.Getter) {
@@ -83,13 +112,7 @@ func Options(c *world.Case) (*verify.Options, *world.Getter) {
 		o.Now = nil
 	}
 	if !c.Embedded {
-		p := x509.NewCertPool()
-		for _, der := range c.Roots {
-			if x, err := x509.ParseCertificate(der); err == nil {
-				p.AddCert(x)
-			}
-		}
-		o.TrustedRoots = p
+		o.TrustedRoots = poolFor(c.Roots)
 	}
 	return o, g
 }
